@@ -372,7 +372,9 @@ func runNotationSign() int {
 				// keys of the caller's own, or keys in well-known name spaces that are neither reserved nor present on the artifact
 				// (a proper prefix of the reserved prefix, a sibling of it, the OCI and docker name spaces)
 				meta = []map[string]string{{"team": "alpha", "stage": ""},
-					{"org.opencontainers.image.title": "web", "io.cncf": "z", "io.cncf.notation/x": "1", "vnd.docker.reference.type": "y"}}[mix(*flagSeed, c.ID, "disj")%2]
+					{"org.opencontainers.image.title": "web", "io.cncf": "z", "io.cncf.notation/x": "1", "vnd.docker.reference.type": "y"},
+					// keys that differ from an annotation of the artifact, or from a reserved key, by surrounding white space only: other keys
+					{" " + artAnnKey: "padded", artAnnKey + " ": "padded too", "\tio.cncf.notary.evil": "x", " team ": "alpha"}}[mix(*flagSeed, c.ID, "disj")%3]
 			case "colliding":
 				meta = map[string]string{artAnnKey: "43"}
 			case "reserved":
